@@ -1,5 +1,7 @@
 """Obligation generation: function under contract -> per-clause obligations with per-path sub-goals
 (DESIGN 4.5, Appendix B), covers and the native CPython cross-check of every path (DESIGN 3)."""
+import os
+import re
 import time
 import traceback
 
@@ -73,14 +75,80 @@ NOT_REPRODUCED()
 '''
 
 
+def _reach(st):
+    """identity map of every object / container reachable from the contract's pre-state (what exists BEFORE the call)"""
+    from .engine import SymDict, SymSeq
+    seen = {}
+    todo = [(st, None, "st")]
+    while todo:
+        x, owner, how = todo.pop()
+        if isinstance(x, (str, int, float, bool, type(None), SV)) or id(x) in seen:
+            continue
+        if isinstance(x, Obj):
+            seen[id(x)] = (x, owner, how)
+            todo.extend((v, x, k) for k, v in x.fields.items())
+        elif isinstance(x, SymDict):
+            seen[id(x)] = (x, owner, how)
+            todo.extend((e.value, owner, how) for e in x.entries)
+        elif isinstance(x, dict):
+            seen[id(x)] = (x, owner, how)
+            todo.extend((v, owner, how) for v in x.values())
+        elif isinstance(x, (list, tuple, set, frozenset)):
+            seen[id(x)] = (x, owner, how)
+            todo.extend((v, owner, how) for v in x)
+        elif type(x).__name__ == "ListSet":
+            seen[id(x)] = (x, owner, how)
+            todo.extend((v, owner, how) for v in x.items)
+    return seen
+
+
+def _hidden_writes(E, contract, st, pre, effects):
+    """writes of the call to state that (a) existed before the call, (b) is held in an ATTRIBUTE of a repository object (the receiver or
+    something it owns) or in a module-level variable, and (c) the contract does not declare in `modifies`: state that outlives the call
+    without being part of its specified result.  A function that has none cannot make a later call depend on an earlier one."""
+    from .engine import SymDict
+    declared = getattr(contract, "modifies", None)
+    allowed = declared(st) if declared else ()
+    allowed_ids = set(id(x) for x in allowed if not isinstance(x, tuple))
+    allowed_attrs = set((id(x[0]), x[1]) for x in allowed if isinstance(x, tuple))
+    out = []
+    for e in effects:
+        if e[0] == "attr_write":
+            o, name = e[1], e[2]
+            if id(o) in pre and (id(o), name) not in allowed_attrs and id(o) not in allowed_ids:
+                out.append("attribute %s.%s" % (o.cls[1], name))
+        elif e[0] in ("dict_write", "list_write", "set_write", "global_write"):
+            d = e[1]
+            if e[0] == "global_write":
+                out.append("module-level %s" % (e[2],))
+                continue
+            if getattr(d, "origin", None) == "const":
+                out.append("a module-level container")      # a dict/list bound at module level: shared by every caller in the process
+                continue
+            if id(d) not in pre or id(d) in allowed_ids:
+                continue
+            x, owner, how = pre[id(d)]
+            if owner is None:
+                continue                    # reached through an argument / local of the contract, not through an object attribute
+            if isinstance(d, SymDict) and not d.closed:
+                continue                    # arbitrary (open) input container: already universally quantified, frame clauses speak about it
+            if (id(owner), how) in allowed_attrs or id(owner) in allowed_ids:
+                continue
+            out.append("container held in %s.%s" % (owner.cls[1], how))
+    return sorted(set(out))
+
+
 def run_contract(E, contract, max_paths=4000):
     def thunk():
         st = contract.setup(E)
+        pre = _reach(st)
+        mark = len(E.path.effects)
         try:
             v = contract.call(E, st)
             out = Outcome("return", v)
         except PyRaise as e:
             out = Outcome("raise", e.exc)
+        E.path.notes.append(("hidden_writes", _hidden_writes(E, contract, st, pre, E.path.effects[mark:])))
         try:
             goals = contract.post(E, st, out)
         except (PyRaise, Unsupported):
@@ -102,6 +170,46 @@ def run_contract(E, contract, max_paths=4000):
             p.value = (Outcome("return", None), goals, None)
             p.abstract = True
     return paths
+
+
+# functions whose specified effect IS a change of the receiver (readers, builders, the caching accessors of compose.Compose)
+_STATEFUL = re.compile(r"deserialize|__init__|\.load|compose\.Compose\.(info|images|rpms|modules)")
+# the builders' specified effect: the manifest / the variant table they file into (and the parent link of the filed variant)
+_BUILDER = re.compile(r"\.add\b|\.add\[|\._add_1_1|add_checksum")
+_BUILDER_WRITES = ("container held in Variant.variants", "container held in Variants.variants", "attribute Variant.parent",
+                   "container held in Images.images", "container held in Rpms.rpms", "container held in Modules.modules",
+                   "container held in ExtraFiles.extra_files", "container held in Checksums.checksums", "container held in Image.checksums",
+                   "attribute Rpms.rpms", "attribute Images.images")
+# documented writes of writers: the header version is set to the current one on save; a layered-product variant marks its release
+_DOCUMENTED_WRITES = ("attribute Header.version", "attribute Release.is_layered")
+
+
+def _state_obligation(run, contract, prefix, name, hidden, only, skip):
+    """frame obligation of every function that is specified as a pure function of its arguments and the receiver's content (validators,
+    writers, parsers, predicates, lookups): it keeps NO state between calls -- no attribute of a pre-existing object, no container owned by
+    one, no module-level variable is written.  With it, the per-call contracts extend to every history of calls by induction; without it
+    a later call may answer differently because of an earlier one (memo tables, 'already validated' flags, remembered arguments)."""
+    clause = "keeps_no_state_between_calls"
+    if _STATEFUL.search(name) or getattr(contract, "STATEFUL", False) or (only is not None and clause not in only) or clause in skip:
+        return
+    hidden = [h for h in hidden if h not in _DOCUMENTED_WRITES and not (_BUILDER.search(name) and h in _BUILDER_WRITES)]
+    with run.obligation("%s#%s" % (prefix, clause), "pyvc/frame", [name]) as ob:
+        if not hidden:
+            ob.discharged()
+            return
+        what = "the call writes %s, which outlives it and is not part of its specified result" % ", ".join(hidden)
+        found = None
+        hs = getattr(contract, "history_search", None)
+        if hs is not None:
+            found = hs(run)
+        if not found:
+            found = _search_any(run, contract)
+        if found:
+            cl, desc, script = found
+            ob.refuted("%s; %s" % (what, desc), replay_script=script, clause=clause)
+        else:
+            ob.undecided("%s; no call history with a wrong answer was found by the bounded search, and the per-call proof does not cover "
+                         "histories of a function that keeps state" % what)
 
 
 def verify(run, E, contract, prefix=None, tier=None, crosscheck=True, known=None, skip=(), only=None):
@@ -130,6 +238,10 @@ def verify(run, E, contract, prefix=None, tier=None, crosscheck=True, known=None
         return {}
     E.summaries.update(saved)
     explore_s = time.time() - t0
+    hidden = sorted(set(h for p in paths for n in p.notes if isinstance(n, tuple) and n[0] == "hidden_writes" for h in n[1]))
+    if os.environ.get("PYVC_HIDDEN_DEBUG") and hidden:
+        print("HIDDEN %s: %s" % (name, hidden))
+    _state_obligation(run, contract, prefix, name, hidden, only, skip)
     clauses = []
     for p in paths:
         for c in p.value[1]:
